@@ -172,6 +172,9 @@ def _list_body(cfg, n, rem, via_pop, name, a, b):
         elif name == 'sort_reverse':
             s.sort(reverse=True)
             ref.sort(reverse=True)
+            # key with ties together with reverse=True: list.sort keeps tied items in their original order
+            s.sort(key=lambda x: x % 2, reverse=True)
+            ref.sort(key=lambda x: x % 2, reverse=True)
         elif name == 'reverse':
             s.reverse()
             ref.reverse()
